@@ -15,7 +15,10 @@ EXPLANATION = (
     'resynchroniser, evaluated on a catalogue of 820 constant buffer contents, leaves everything from the earliest known start tag, else from the '
     "last '<', else nothing (extended to all inputs where the symbolic provenance analysis recognises the code); every other truncation in "
     'process() is either the end of a prefix handed to the message parser in the same iteration or the single-character drop under the '
-    'enabled-threshold guard, followed by a resynchronisation. C11.AUX: no cached scan state survives a truncation.'
+    'enabled-threshold guard, followed by a resynchronisation. C11.AUX: no cached scan state survives a truncation. C11.REGEX: termination '
+    'of the parse includes the regex matcher - for every unbounded repeat in every regex literal of indi.message / indi.transport the '
+    "iteration B+ is tested for ambiguity exactly (product of B's DFA with itself over continue/restart choices); an ambiguous iteration "
+    'followed by anything that can fail backtracks exponentially. The detector runs a built-in positive and negative example on every run.'
 )
 NOT_DECIDED = "that junk which does not imitate a protocol element is skipped promptly, and recovery after a corrupt element (both depend on what expat accepts as a prefix)."
 ASSUMPTIONS = [
